@@ -1003,6 +1003,9 @@ func (rn *runner) explore() {
 		}
 		rn.out.Programs++
 		rn.out.Shapes[sp.Shape]++
+		if sp.Large {
+			rn.out.Shapes["(large: 20-40 function providers)"]++
+		}
 		if sp.Wide {
 			rn.out.Shapes["(with a constructor of more than 64 parameters)"]++
 		}
